@@ -1,7 +1,8 @@
 """C01 - model checking returns exactly the satisfying (state, colour) pairs.
 
 Decided here (necessary structural conditions, DESIGN.md section 5/C01):
-  C01-R1  eval_node, partially evaluated for every plain operator shape, computes the defining equation of
+  C01-R1  eval_node, partially evaluated for every plain operator shape (and for the same operators over syntactically
+          special operands: constants, a variable, a wild-card, a negation), computes the defining equation of
           that operator over the results of its recursive calls (dispatch, operand roles, graph / steady-state
           pass-through, duality and fixed-point shape are all part of the compared value);
   C01-R2  the operator enums are matched without wildcard arms that could swallow an operator: every variant
@@ -40,7 +41,11 @@ def run(prog, rep):
         if op in ("EW", "AW"):
             continue            # C13
         sem.check_shape(rep, "C01-R1", en, shape, alts, key, detail=f"{kind} {op}")
-    rep.floor("C01-R1", 22)
+    for key, shape, alts, kind, op in sem.variant_shapes():
+        if op in ("EW", "AW"):
+            continue
+        sem.check_shape(rep, "C01-R1", en, shape, alts, key, detail=f"{kind} {op} with a special operand")
+    rep.floor("C01-R1", 120)
     # R2: recursive calls
     recs = [s for s in en.summ.sites if s.kind == "call" and s.is_call_to("eval_node")]
     for s in recs:
@@ -61,4 +66,4 @@ def run(prog, rep):
     for f in prog.lib_fns():
         if f.path.startswith(E.OPS):
             sem.check_loop_protocol(rep, "C01-R4", prog, f, eng)
-    rep.floor("C01-R4", 3)
+    rep.floor("C01-R4", 2)
